@@ -61,9 +61,15 @@ impl<T: ?Sized> Mutex<T> {
 
         let cur = SyncBlocker::current();
         // register blocker first
+        #[cfg(may_verif)]
+        crate::verif::pt("mutex.lock.push", crate::verif::addr(&self.cnt), crate::verif::addr(&*cur), 0);
         self.to_wake.push(cur.clone());
         // inc the cnt, if it's the first grab, unpark the first waiter
+        #[cfg(may_verif)]
+        crate::verif::pt("mutex.lock.inc", crate::verif::addr(&self.cnt), 0, 0);
         if self.cnt.fetch_add(1, Ordering::SeqCst) == 0 {
+            #[cfg(may_verif)]
+            crate::verif::pt("mutex.pop", crate::verif::addr(&self.cnt), 0, 0);
             self.to_wake
                 .pop()
                 .map(|w| self.unpark_one(&w))
@@ -114,6 +120,8 @@ impl<T: ?Sized> Mutex<T> {
     }
 
     pub fn try_lock(&self) -> TryLockResult<MutexGuard<'_, T>> {
+        #[cfg(may_verif)]
+        crate::verif::pt("mutex.try.cas", crate::verif::addr(&self.cnt), 0, 0);
         match self
             .cnt
             .compare_exchange(0, 1, Ordering::SeqCst, Ordering::Relaxed)
@@ -131,7 +139,11 @@ impl<T: ?Sized> Mutex<T> {
     }
 
     fn unlock(&self) {
+        #[cfg(may_verif)]
+        crate::verif::pt("mutex.unlock.dec", crate::verif::addr(&self.cnt), 0, 0);
         if self.cnt.fetch_sub(1, Ordering::SeqCst) > 1 {
+            #[cfg(may_verif)]
+            crate::verif::pt("mutex.pop", crate::verif::addr(&self.cnt), 0, 0);
             self.to_wake
                 .pop()
                 .map(|w| self.unpark_one(&w))
